@@ -51,6 +51,10 @@ def plan(tier, seed):
         # 4-leaf chains on one species, every tuple of subsequences of abc (nested leading / trailing losses)
         out += L.split_plan("labelled:O4chainx1x3s", [(sh, None) for sh in spaces.chain_shapes(4)],
                             spaces.subsequence_syntenies(3), 60, {"mode": "lab", "costs": [core[0]]})
+        # every 4-leaf object on 3 species leaves, each leaf holding one of two families, transfers at twice the unit price,
+        # segmental losses at 2 and at 1 (see C03): the extended unordered optimum must stay below the base and the ordered one
+        out += L.split_plan("labelled:O4x3x{a,b}/hgt2", spaces.shape_pairs(4, 3, min_obj=4, min_sp=3), [("a",), ("b",)], 60,
+                            {"mode": "lab", "costs": [(0, 2, 2, 1, 2), (0, 1, 2, 1, 1)]})
         for osh, ssh in spaces.shape_pairs(4, 3):
             out.append({"slice": "single-family:P4x3", "mode": "single", "osh": osh, "ssh": ssh, "costs": core[:4] + [core[7]] + cheap_hgt + uneven})
         # two cherries on 4 species leaves: the optimum may host the root strictly below the LCA species of both children
